@@ -309,7 +309,11 @@ func init() {
 			t0 := time.Now()
 			out := safeSanitize(pol, in)
 			us := time.Since(t0).Microseconds()
-			fmt.Fprintf(c.w, "time %d %s %s %d\n", pid, bmx.HexField(in), out, us)
+			op := "time"
+			if len(in) > 400 {
+				op = "timeonly" // too long for the interpreted model to replay quickly; wall clock only
+			}
+			fmt.Fprintf(c.w, "%s %d %s %s %d\n", op, pid, bmx.HexField(in), out, us)
 		}
 		sizes := []int{2, 4, 8, 12, 16, 24, 32, 64, 128, 200}
 		if c.n > 2000 {
